@@ -564,4 +564,33 @@ theorem C04_reload_idem (T : Table) (c : J) : normDoc T (normDoc T c) = normDoc 
   | list xs => simp [normDoc, List.map_map, Function.comp_def, normRoot_idem]
   | null | bool _ | int _ | flt _ | str _ | tup _ => simp [normDoc]
 
+/-- a reload visits every entry and keeps its keyword: the key list of an object is unchanged, in order -/
+theorem normF_keys (T : Table) (ty : Option Str) (f : Fields) : (normF T ty f).map Prod.fst = f.map Prod.fst := by
+  rw [normF_map]; simp [List.map_map, Function.comp_def]
+
+theorem normL_length (T : Table) : (xs : List J) → (normL T xs).length = xs.length
+  | [] => by simp [normL]
+  | x :: r => by simp [normL, normL_length T r]
+
+/-- **C04_reload_keys** — for EVERY dictionary: the dictionary a reload gives back is a dictionary with exactly the same
+keys in exactly the same order (nothing added, dropped, renamed or re-ordered at the root object; `normF_keys` is the same
+statement for every nested object), and a list of roots comes back as a list of the same length.  With the `reload`
+correspondence this is the key half of C01's "same keys". -/
+theorem C04_reload_keys (T : Table) (f : Fields) :
+    ∃ g, normDoc T (.dict f) = .dict g ∧ g.map Prod.fst = f.map Prod.fst := by
+  simp only [normDoc, normRoot]
+  split
+  · split
+    · exact ⟨f, rfl, rfl⟩
+    · exact ⟨normF T (typeOf f) f, by simp only [normJ], normF_keys T _ f⟩
+  · exact ⟨f, rfl, rfl⟩
+
+theorem C04_reload_roots (T : Table) (xs : List J) :
+    ∃ ys, normDoc T (.list xs) = .list ys ∧ ys.length = xs.length :=
+  ⟨xs.map (normRoot T), rfl, by simp⟩
+
+/-- non-vacuity: a root object with two keys keeps them -/
+example (T : Table) : ∃ g, normDoc T (.dict [(s%"__type__", .str s%"map"), (s%"name", .str s%"x")]) = .dict g ∧
+    g.map Prod.fst = [s%"__type__", s%"name"] := C04_reload_keys T _
+
 end Mappy.Printer
